@@ -768,10 +768,24 @@ class Interp:
             for v in vals[1:]:
                 m = (m & v.mask) if isinstance(e.op, ast.And) else (m | v.mask)
             return ElemCond(m)
+        if vals and not all(isinstance(v, (Cond, ElemCond)) for v in vals) and any(isinstance(v, (VS, TL, Obj, NoneV, ListV, TupleV, VarV)) for v in vals):
+            # `a or b` / `a and b` used for its VALUE (a default: `xs = xs or []`): the first operand that decides
+            return self._bool_value(e, vals)
         cs = [self.to_cond(v, n) for v, n in zip(vals, e.values)]
         if isinstance(e.op, ast.And):
             return Cond(c_and(cs))
         return Cond(c_or(cs))
+
+    def _bool_value(self, e, vals):
+        is_or = isinstance(e.op, ast.Or)
+        for k, (v, n) in enumerate(zip(vals[:-1], e.values[:-1])):
+            nxt = vals[k + 1]
+            if is_or and isinstance(v, VS) and isinstance(nxt, VS) and nxt.tt == 0 and k + 2 == len(vals):
+                return v  # `xs or []`: xs when it has members, an empty list (which is what xs then is) otherwise
+            c = self.to_cond(v, n)
+            if self.decide(c, "%s %s" % ("or" if is_or else "and", norm(n)[:40])) == is_or:
+                return v
+        return vals[-1]
 
     def ev_BinOp(self, e, env):
         l = self.eval(e.left, env)
@@ -959,12 +973,22 @@ class Interp:
                 return ("unbound", base.cls, fi)
         if isinstance(base, TupleV) and e.attr in getattr(base, "names", []):
             return base.items[base.names.index(e.attr)]
+        if isinstance(base, TupleV) and getattr(base, "cls", None):
+            # a property / method defined on the record class
+            m = self.prog.resolve_method(base.cls, e.attr)
+            if m is not None and m.kind == "property":
+                return self.call_function(m, [base], {})
+            if m is not None:
+                return ("boundmethod", base, m)
         return Opaque("attr:" + norm(e))
 
     def ev_Subscript(self, e, env):
         base = self.eval(e.value, env)
-        if isinstance(base, TupleV) and isinstance(e.slice, ast.Constant) and isinstance(e.slice.value, int):
-            i = e.slice.value
+        idx = e.slice
+        if isinstance(idx, ast.UnaryOp) and isinstance(idx.op, ast.USub) and isinstance(idx.operand, ast.Constant) and isinstance(idx.operand.value, int):
+            idx = ast.Constant(value=-idx.operand.value)
+        if isinstance(base, (TupleV, ListV)) and not getattr(base, "unknown", False) and isinstance(idx, ast.Constant) and isinstance(idx.value, int) and not isinstance(idx.value, bool):
+            i = idx.value
             if -len(base.items) <= i < len(base.items):
                 return base.items[i]
         return Opaque("subscript:" + norm(e))
@@ -1070,9 +1094,19 @@ class Interp:
                     return NONE
                 if callee[2] == "copy":
                     return ListV(list(callee[1].items))
+                if callee[2] == "extend" and len(pos) == 1 and isinstance(pos[0], (ListV, TupleV)) and not getattr(pos[0], "unknown", False):
+                    callee[1].items.extend(pos[0].items)
+                    return NONE
+                if callee[2] == "extend" and len(pos) == 1 and isinstance(pos[0], VS) and pos[0].tt == 0:
+                    return NONE
                 return Opaque("listmethod")
             if tag == "ignore":
                 return NONE
+            if tag == "memberpred" and len(pos) == 1 and not kw:
+                if isinstance(pos[0], ElemV):
+                    return ElemCond(callee[1].tt)
+                if isinstance(pos[0], VarV):
+                    return Cond(("E", pos[0].tt & callee[1].tt))
             if tag == "strmethod":
                 return StrV() if callee[1] in ("format", "join", "strip", "lower", "upper", "replace", "format_map", "lstrip", "rstrip", "capitalize", "title") else OpaqueNN("strmethod")
             if tag == "lambda":
@@ -1087,9 +1121,44 @@ class Interp:
         if isinstance(callee, TypeV):
             return self.construct(callee.cls, pos, kw, e)
         if isinstance(callee, Opaque):
+            dotted = self._ext_dotted(callee)
+            if dotted == "functools.partial" and len(pos) == 2 and not kw and self._ext_dotted(pos[0]) == "operator.contains" and isinstance(pos[1], VS):
+                return ("memberpred", pos[1])  # partial(operator.contains, xs): "is a member of xs"
+            if dotted in ("itertools.filterfalse", "filter", "builtins.filter") and len(pos) == 2 and not kw and isinstance(pos[1], VS):
+                mask = self._pred_mask(pos[0], pos[1], e)
+                if mask is not None:
+                    keep = mask if dotted != "itertools.filterfalse" else neg(mask)
+                    return VS(pos[1].tt & keep, pos[1].nodup)
             self.unknowns.append("call " + norm(e))
             return Opaque("call:" + norm(f))
         raise AnalysisError("cannot resolve call %s in %s" % (norm(e), self.cur))
+
+    def _ext_dotted(self, v: Any) -> Optional[str]:
+        """the dotted name of a third-party / standard-library callable held in an opaque value"""
+        if not isinstance(v, Opaque):
+            return None
+        fi = self.func_stack[-1] if self.func_stack else None
+        imports = fi.module.imports if fi is not None else {}
+        if v.tag.startswith("name:"):
+            n = v.tag[5:]
+            return imports.get(n, n)
+        if v.tag.startswith("attr:"):
+            parts = v.tag[5:].split(".")
+            return ".".join([imports.get(parts[0], parts[0])] + parts[1:])
+        return None
+
+    def _pred_mask(self, pred: Any, vs: "VS", node: ast.AST) -> Optional[int]:
+        """the classes of elements of `vs` on which a one-argument predicate is true, when it is a membership test"""
+        if isinstance(pred, tuple) and pred and pred[0] == "memberpred":
+            return pred[1].tt
+        if isinstance(pred, tuple) and pred and pred[0] == "lambda":
+            lam, env0 = pred[1], dict(pred[2])
+            if len(lam.args.args) == 1:
+                env0[lam.args.args[0].arg] = ElemV(vs.tt, vs.nodup)
+                r = self.eval(lam.body, env0)
+                if isinstance(r, ElemCond):
+                    return r.mask
+        return None
 
     # -------------------------------------------------------------- objects
     def construct(self, cname: str, pos: List[Any], kw: Dict[str, Any], node: ast.AST) -> Any:
@@ -1117,6 +1186,7 @@ class Interp:
                     vals[i] = self.eval(d, {})
             tv = TupleV(vals)
             tv.names = names
+            tv.cls = cname
             return tv
         init = self.prog.resolve_method(cname, "__init__")
         if init is None and ci.is_dataclass and self.prog.resolve_method(cname, "__post_init__") is None:
@@ -1164,6 +1234,15 @@ class Interp:
             # `x = []` was read as an empty variable list; it is a plain list
             self._store_back(base_node, ListV([pos[0]]), env)
             return NONE
+        if name == "extend" and len(pos) == 1:
+            x = pos[0]
+            if isinstance(x, VS):
+                base.nodup = base.nodup and x.nodup and (base.tt & x.tt & self.allowed) == 0
+                base.tt = base.tt | x.tt
+                return NONE
+            if isinstance(x, (ListV, TupleV)) and base.tt == 0 and not getattr(x, "unknown", False):
+                self._store_back(base_node, ListV(list(x.items)), env)  # `xs = []` was a plain list after all
+                return NONE
         if name == "index":
             if len(pos) == 1 and isinstance(pos[0], VarV):
                 return IndexV(base, pos[0])
